@@ -283,8 +283,15 @@ func (a *An) AtomicScan(f *ssa.Function, cls classify, og *origins) []AtomicHit 
 		} else {
 			or = OrigValidation
 		}
-		if or&(OrigValidation|OrigUnknown) == 0 {
-			return // only randomness / configuration failures: not a rejection of the input
+		mask := a.atomicMask
+		if mask == 0 {
+			mask = OrigValidation | OrigUnknown
+		}
+		if or&mask == 0 {
+			return // (default) only randomness / configuration failures: not a rejection of the input
+		}
+		if a.atomicMask != 0 && or&^mask&^OrigConfig != 0 && or&mask == 0 {
+			return
 		}
 		srcs := map[*ssa.Call]bool{}
 		errSources(sv, srcs, 0)
